@@ -4,9 +4,9 @@ use crate::{
 };
 use nom::{
     branch::alt,
-    bytes::complete::tag,
-    character::complete::char,
-    combinator::{into, map, map_res, opt, value, verify},
+    bytes::complete::{tag, take_until},
+    character::complete::{char, none_of},
+    combinator::{into, map, map_res, opt, recognize, value, verify},
     multi::{many0_count, many1, separated_list0, separated_list1},
     sequence::{delimited, pair, preceded, separated_pair, terminated},
     Parser,
@@ -15,7 +15,7 @@ use nom::{
 use super::{
     asn1_type, asn1_value,
     common::{
-        extension_marker, identifier, in_braces, in_parentheses, keywords, range_seperator,
+        comment, extension_marker, identifier, in_braces, in_parentheses, keywords, range_seperator,
         skip_ws_and_comments,
     },
     error::{MiscError, ParserResult},
@@ -23,7 +23,7 @@ use super::{
     into_inner,
     parameterization::parameters,
     skip_ws,
-    util::{opt_delimited, take_until_and_not, take_until_unbalanced},
+    util::{opt_delimited, take_until_and_not},
 };
 
 pub fn constraints(input: Input<'_>) -> ParserResult<'_, Vec<Constraint>> {
@@ -396,10 +396,29 @@ fn user_defined_constraint_real(input: Input<'_>) -> ParserResult<'_, UserDefine
         keywords(CONSTRAINED_BY),
         skip_ws_and_comments(delimited(
             char(LEFT_BRACE),
-            take_until_unbalanced("{", "}"),
+            text_in_balanced_braces,
             char(RIGHT_BRACE),
         )),
     )))
+    .parse(input)
+}
+
+/// The parameters of a user-defined constraint are kept as text. Braces nest; a brace inside a
+/// comment or a character string does not count.
+fn text_in_balanced_braces(input: Input<'_>) -> ParserResult<'_, &str> {
+    into_inner(recognize(many0_count(alt((
+        value((), comment),
+        value((), delimited(char('"'), take_until("\""), char('"'))),
+        value(
+            (),
+            delimited(
+                char(LEFT_BRACE),
+                text_in_balanced_braces,
+                char(RIGHT_BRACE),
+            ),
+        ),
+        value((), none_of("{}")),
+    )))))
     .parse(input)
 }
 
